@@ -72,6 +72,18 @@ def captured(out):
                      lambda c: "capture %s as kind %d" % (c["file"], c["kind"]))
 
 
+def thread_call(kind, reply_hex): return impl(kind, bytes.fromhex(reply_hex))
+
+
+def run_threads(tier, out, rnd, mk):
+    """several threads, each polling devices of its own: the replies of one thread's devices are decoded while the other threads decode theirs"""
+    cs = [mk(k) for k in (0, 1, 2, 0, 1, 2, 0, 3)]
+    enc = lib.run_model([lib.req("reply_encode", c["kind"], args_of(c["kind"], c["fields"]), bytes.fromhex(c["filler"])) for c in cs])
+    calls = [[c["kind"], e.split(";", 1)[0]] for c, e in zip(cs, enc)]; ex = [e.split(";", 1)[1] for e in enc]
+    world.run_threads(out, "several-threads-each-decoding-its-own-replies", "props.c08", "thread_call", calls, ex,
+                      lambda c: "reply kind %s %s.." % ((c[0], c[1][:24]) if c else ("?", "")), startups=24 if tier == "quick" else 400, threads=4, rounds=150 if tier == "quick" else 400)
+
+
 def run(tier, rnd, out):
     corpus = lib.load_corpus("C08")
     if corpus: run_stream(out, "corpus", corpus)
@@ -83,6 +95,7 @@ def run(tier, rnd, out):
                 k = rnd.randrange(138); f[k:k + 2] = rnd.choice([b"\xfe\xf0", b"\xf0\xfe", b"\0\0"])
         return bytes(f).hex()
     mk = lambda k: {"kind": k, "fields": rand_fields(rnd, k), "filler": filler()}
+    run_threads(tier, out, rnd, mk)
     cs = [mk(k) for k in (0, 1, 2, 3) for _ in range(n)]
     for t10 in (range(65536) if tier == "thorough" else list(range(0, 1300)) + list(range(1300, 65536, 37))):      # every tenth of a degree up to 130.0, then a sieve
         c = mk(2); c["fields"][0] = t10; cs.append(c)
@@ -119,5 +132,8 @@ def amps_sweep(out):
 
 def replay(rp, out):
     c = rp["input"]
+    if "threads" in rp.get("stream", ""):
+        import random
+        return run("quick", random.Random(int(rp.get("seed", 1))), out)
     if "reply" in c: captured(out)
     else: run_stream(out, rp.get("stream", "replay"), [c], through_api=("second" if "after-a-command" in rp.get("stream", "") else rp.get("stream") == "through-the-state-queries"))
